@@ -71,9 +71,9 @@ func c14Plans(tier string) []core.Trace {
 	}
 	var retri, term []int
 	for c := 0; c < c14CallsPerAttempt; c++ {
-		retri = append(retri, 1+c)                     // retriable failure
+		retri = append(retri, 1+c)                      // retriable failure
 		retri = append(retri, 1+2*c14CallsPerAttempt+c) // concurrent writer (conflict unless it lands before GetChangeOps)
-		term = append(term, 1+c14CallsPerAttempt+c)    // permanent failure
+		term = append(term, 1+c14CallsPerAttempt+c)     // permanent failure
 	}
 	term = append(term, 0) // success
 	var out []core.Trace
